@@ -10,7 +10,9 @@ ClsQ == {Cls({"a", "k"}, FALSE), Cls({"a", "K"}, TRUE)}
 ClsT == ClsQ \cup {Cls({"A", "S"}, FALSE), Cls({"KELVIN"}, TRUE), Cls({"e", "1", "DOT"}, FALSE), Cls({"fsigma"}, FALSE)}
 Perls == {Perl(k) : k \in {"w", "W", "d", "D", "s", "S"}}
 
-AtomsOf(L, C) == {Lit(c) : c \in L} \cup {AnyCh} \cup C \cup Perls
+\* spellings without a cased letter whose meaning still depends on the case rule
+Caseless == {Rng("1", "US"), Esc("K")}
+AtomsOf(L, C) == {Lit(c) : c \in L} \cup {AnyCh} \cup C \cup Perls \cup Caseless
 Quant(a) == {a, Star(a), Plus(a), Opt(a), Rep12(a)}
 Level1(A) == UNION {Quant(a) : a \in A}
 RegexOf(A) == Level1(A) \cup {Cat(x, y) : x \in A, y \in Level1(A)} \cup {Alt(x, y) : x \in A, y \in A}
@@ -36,7 +38,7 @@ MCPathsT == UNION {[1..n -> PathCharsT] : n \in 0..2} \cup UNION {[1..3 -> PathC
 MCPatsSeq == {RePat(Cat(Bol, Cat(Lit("a"), Eol))), RePat(Lit("K")), RePat(Cat(Perl("S"), Lit("e"))), RePat(Perl("W")),
               RePat(Cls({"a", "K"}, TRUE)), RePat(Cat(Bol, Plus(Cls({"a", "k"}, FALSE)))), RePat(Alt(Lit("LONGS"), Lit("e"))),
               RePat(Cat(Wb, Lit("K"))), RePat(Star(Lit("a"))), RePat(Cat(Lit("a"), Cat(AnyCh, Lit("K")))),
-              RePat(Perl("D")), RePat(Cat(Lit("DOT"), Lit("K"))), RePat(Cat(Bol, Cat(Rep12(Lit("a")), Eol))), RePat(Rep12(Cls({"a", "K"}, FALSE)))}
+              RePat(Perl("D")), RePat(Cat(Lit("DOT"), Lit("K"))), RePat(Cat(Bol, Cat(Plus(Rng("1", "US")), Eol))), RePat(Esc("K")), RePat(Cat(Esc("A"), Rng("1", "US"))), RePat(Cat(Bol, Cat(Rep12(Lit("a")), Eol))), RePat(Rep12(Cls({"a", "K"}, FALSE)))}
              \cup {PlainPat(p) : p \in PlainQ}
 MCPathsSeq == {<<"a">>, <<"A">>, <<"A", "K">>, <<"a", "DOT", "k">>, <<"KELVIN", "e", "e">>, <<"s", "e">>, <<"e", "1">>, << >>}
 =============================================================================
